@@ -42,6 +42,15 @@ class AggregationError(InvalidDefinitionError):
     pass
 
 
+class NonSerializableTypeError(TypeParameterError, TypeError):
+    """
+    Raised when the layout of a type that has no serialized representation of its own (a service type) is requested,
+    e.g., because a definition attempts to use a service type as a field type, as an array element type,
+    or as the operand of ``_extent_``. It is also a :class:`TypeError` for compatibility with the callers that
+    query :attr:`ServiceType.bit_length_set` directly.
+    """
+
+
 class CompositeType(SerializableType):
     """
     This is the most interesting type in the library because it represents an actual DSDL definition upon its
@@ -709,7 +718,7 @@ class ServiceType(CompositeType):
 
     @property
     def bit_length_set(self) -> BitLengthSet:
-        raise TypeError("Service types are not directly serializable. Use either request or response.")
+        raise NonSerializableTypeError("Service types are not directly serializable. Use either request or response.")
 
     @property
     def request_type(self) -> CompositeType:
@@ -725,7 +734,7 @@ class ServiceType(CompositeType):
         self, base_offset: BitLengthSet = BitLengthSet(0)
     ) -> typing.Iterator[typing.Tuple[Field, BitLengthSet]]:
         """Always raises a :class:`TypeError`."""
-        raise TypeError("Service types do not have serializable fields. Use either request or response.")
+        raise NonSerializableTypeError("Service types do not have serializable fields. Use either request or response.")
 
 
 # +--[UNIT TESTS]-----------------------------------------------------------------------------------------------------+
